@@ -638,6 +638,12 @@ class CheckRun:
                 path = rdir / f"{self.pid}-{n}.json"
                 path.write_text(json.dumps({"property": self.pid, "key": v.key, "desc": v.desc, "replay": v.replay}, indent=1, default=str))
                 print(f"VIOLATION property={self.pid} replay={path} key={v.key} :: {v.desc}", flush=True)
+        if os.environ.get("VERIF_DUMP_KEYS"):      # debugging aid: every unlisted key with its count and first description
+            agg: Dict[str, Any] = {}
+            for v in unlisted:
+                a = agg.setdefault(v.key, {"n": 0, "desc": v.desc, "replay": v.replay})
+                a["n"] += 1
+            Path(os.environ["VERIF_DUMP_KEYS"]).write_text(json.dumps(agg, indent=1, default=str))
         self.cov["known_findings_matched"] = sum(matched.values())
         self.cov["violation_keys"] = sorted({v.key for v in unlisted})[:50]
         ev = {
